@@ -273,6 +273,7 @@ type GbnScenario struct {
 	Name       string           `json:"name"`
 	N          uint8            `json:"n"`
 	MaxChunk   int              `json:"max_chunk"`
+	NoChunkEP  [2]bool          `json:"no_chunk_ep"` // that endpoint is created without WithMaxSendSize (asymmetric configuration)
 	Msgs       [2][]int         `json:"msgs"` // payload sizes, client->server and server->client
 	Faults     [2][]Fault       `json:"faults"`
 	RandFault  *RandFault       `json:"rand_fault,omitempty"`
@@ -370,7 +371,7 @@ func (sc *GbnScenario) optsFor(ep int) []gbn.Option {
 		to = append(to, gbn.WithKeepalivePing(time.Duration(sc.PingNs), time.Duration(sc.PongNs)))
 	}
 	o := []gbn.Option{gbn.WithTimeoutOptions(to...)}
-	if sc.MaxChunk > 0 {
+	if sc.MaxChunk > 0 && !(ep >= 0 && sc.NoChunkEP[ep]) {
 		o = append(o, gbn.WithMaxSendSize(sc.MaxChunk))
 	}
 	return o
